@@ -107,6 +107,9 @@ func checkC43(reg *Registry, c accCase) pbt.Result {
 	if a == nil {
 		return pbt.Result{Classes: []string{"no-such-accessor"}}
 	}
+	if pbt.Known("F27") && !pbt.Replaying() && underNestedMask(c.Item, a.Field) {
+		return pbt.Result{Excluded: "F27"} // the same shape in a schema set whose item names are not listed (random schemas)
+	}
 	if a.ext {
 		// external masks live in the enclosing object; the accessor contract there is about the passed mask word and
 		// the object's own TL2/JSON presence: checked through IsSet(mask) and the TL2 / JSON round trips below
@@ -158,6 +161,14 @@ func checkC43(reg *Registry, c accCase) pbt.Result {
 	// ---- Set
 	setM := ov.MethodByName(a.set)
 	arg, hasArg := setterArg(obj, it, c.Bytes, *a, c.VSeed)
+	if hasArg && arg.Kind() == reflect.Uint32 {
+		// a # field may be the mask or the size of other fields of this object: a foreign number would make the object
+		// inconsistent (a bit set for a field that holds nothing, a count that differs from the array). The accessor
+		// law for such a field is about its presence; it is set to the number it already holds.
+		if cur := reflect.ValueOf(obj).Elem().FieldByName(a.Field); cur.IsValid() && cur.Kind() == reflect.Uint32 {
+			arg = reflect.ValueOf(uint32(cur.Uint())).Convert(arg.Type())
+		}
+	}
 	var args []reflect.Value
 	switch {
 	case hasArg:
@@ -410,6 +421,31 @@ func natDependent(t reflect.Type) bool {
 	for _, name := range []string{"WriteTL1", "WriteTL1Boxed", "WriteTL1General"} {
 		if m, ok := reflect.PointerTo(t).MethodByName(name); ok {
 			return m.Type.NumIn() > 2 // receiver, buffer
+		}
+	}
+	return false
+}
+
+// underNestedMask: by the schema (parsed again by the harness), the field behind the accessor is governed by a local
+// mask field that is itself governed by a mask (known finding F27 is about exactly this shape).
+func underNestedMask(item, goField string) bool {
+	_, combs, err := theRef()
+	if err != nil {
+		return false
+	}
+	c := combs[item]
+	if c == nil {
+		return false
+	}
+	norm := func(s string) string { return strings.ToLower(strings.ReplaceAll(s, "_", "")) }
+	for _, f := range c.Fields {
+		if f.Mask == nil || norm(f.Name) != norm(goField) {
+			continue
+		}
+		for _, m := range c.Fields {
+			if m.Name == f.Mask.Src && m.Mask != nil {
+				return true
+			}
 		}
 	}
 	return false
